@@ -8,6 +8,7 @@ package main
 import (
 	"flag"
 	"fmt"
+	"io/ioutil"
 	"os"
 	"strings"
 	"time"
@@ -336,92 +337,113 @@ func loggerPart(r *seq.Run, tier string) {
 		L = 7
 	}
 	cfgs := []cfg{basicCfg(0), basicCfg(1), basicCfg(2), basicCfg(3), burstCfg(1, P, nil), burstCfg(2, P, func() *cfg { c := basicCfg(2); return &c }())}
-	for _, c := range cfgs {
-		for _, loggerLevel := range []zerolog.Level{zerolog.TraceLevel, zerolog.InfoLevel} {
-			idx := make([]int, L)
-			for {
-				s, m := c.mk()
-				w := &recW{}
-				lg := zerolog.New(w).Level(loggerLevel).Sample(s)
-				zerolog.SetGlobalLevel(zerolog.TraceLevel)
-				zerolog.DisableSampling(false)
-				disabled := false
-				glob := zerolog.TraceLevel
-				clock = 0
-				var want []string
-				var hist []string
-				for i := 0; i < L; i++ {
-					o := ops[idx[i]]
-					r.Transitions++
-					switch o.kind {
-					case "ev":
-						tag := fmt.Sprintf("e%d", i)
-						hist = append(hist, fmt.Sprintf("%v(%s)", o.lvl, tag))
-						lg.WithLevel(o.lvl).Str("t", tag).Send()
-						// WithLevel(Disabled) is never written and, like every event the gate rejects, costs no budget
-						if o.lvl != zerolog.Disabled && o.lvl >= loggerLevel && o.lvl >= glob {
-							if disabled || m.sample(o.lvl, clock) {
-								want = append(want, tag)
-							}
-						}
-					case "write", "print":
-						// the logger as an io.Writer (the standard library's log bridge) emits one NoLevel event, Print one
-						// debug event: each consults the sampler exactly once
-						tag := fmt.Sprintf("e%d", i)
-						lvl := zerolog.NoLevel
-						if o.kind == "write" {
-							hist = append(hist, fmt.Sprintf("Write(%s)", tag))
-							wlg := lg.With().Str("t", tag).Logger()
-							wlg.Write([]byte("w"))
-						} else {
-							lvl = zerolog.DebugLevel
-							hist = append(hist, fmt.Sprintf("Print(%s)", tag))
-							plg := lg.With().Str("t", tag).Logger()
-							plg.Print("p")
-						}
-						if lvl >= loggerLevel && lvl >= glob {
-							if disabled || m.sample(lvl, clock) {
-								want = append(want, tag)
-							}
-						}
-					case "dis-on", "dis-off": // a setter, not a toggle: the same value may be set twice in a row
-						disabled = o.kind == "dis-on"
-						zerolog.DisableSampling(disabled)
-						hist = append(hist, fmt.Sprintf("DisableSampling(%v)", disabled))
-					case "glob":
-						glob = o.lvl
-						zerolog.SetGlobalLevel(glob)
-						hist = append(hist, fmt.Sprintf("SetGlobalLevel(%v)", glob))
-					case "tick":
-						clock += P
-						hist = append(hist, "clock+=P")
+	// the sampled logger is used as built, or after one more derivation that must keep the sampler (Output to the
+	// same destination, a child context, a hook, the level set after the sampler instead of before): the shorter
+	// histories suffice there
+	Lfull := L
+	derivations := []string{"direct", "output", "with", "hook", "level-after"}
+	for di, derivation := range derivations {
+		L := Lfull
+		if di > 0 {
+			L = Lfull - 2
+		}
+		for _, c := range cfgs {
+			for _, loggerLevel := range []zerolog.Level{zerolog.TraceLevel, zerolog.InfoLevel} {
+				idx := make([]int, L)
+				for {
+					s, m := c.mk()
+					w := &recW{}
+					lg := zerolog.New(w).Level(loggerLevel).Sample(s)
+					switch derivation {
+					case "output":
+						lg = zerolog.New(ioutil.Discard).Level(loggerLevel).Sample(s).Output(w)
+					case "with":
+						lg = lg.With().Str("c", "x").Logger()
+					case "hook":
+						lg = lg.Hook(zerolog.HookFunc(func(*zerolog.Event, zerolog.Level, string) {}))
+					case "level-after":
+						lg = zerolog.New(w).Sample(s).Level(loggerLevel)
 					}
-				}
-				var got []string
-				for _, l := range w.lines {
-					i := strings.Index(l, `"t":"`)
-					j := strings.Index(l[i+5:], `"`)
-					got = append(got, l[i+5:i+5+j])
-				}
-				outcome := fmt.Sprint(c.name, loggerLevel, got)
-				r.Eval(outcome, len(got) > 0 && len(got) < L)
-				if fmt.Sprint(got) != fmt.Sprint(want) {
-					r.Violation("", "logger/"+c.name, fmt.Sprintf("logger(level=%v).Sample(%s), history %v: writer received %v, model expects %v", loggerLevel, c.name, hist, got, want), map[string]interface{}{"history": hist})
-				}
-				if r.Evals%50000 == 0 && len(r.Samples) < 7 {
-					r.Sample(fmt.Sprintf("logger %s level=%v history=%v -> %v", c.name, loggerLevel, hist, got))
-				}
-				k := L - 1
-				for k >= 0 {
-					idx[k]++
-					if idx[k] < len(ops) {
+					zerolog.SetGlobalLevel(zerolog.TraceLevel)
+					zerolog.DisableSampling(false)
+					disabled := false
+					glob := zerolog.TraceLevel
+					clock = 0
+					var want []string
+					var hist []string
+					for i := 0; i < L; i++ {
+						o := ops[idx[i]]
+						r.Transitions++
+						switch o.kind {
+						case "ev":
+							tag := fmt.Sprintf("e%d", i)
+							hist = append(hist, fmt.Sprintf("%v(%s)", o.lvl, tag))
+							lg.WithLevel(o.lvl).Str("t", tag).Send()
+							// WithLevel(Disabled) is never written and, like every event the gate rejects, costs no budget
+							if o.lvl != zerolog.Disabled && o.lvl >= loggerLevel && o.lvl >= glob {
+								if disabled || m.sample(o.lvl, clock) {
+									want = append(want, tag)
+								}
+							}
+						case "write", "print":
+							// the logger as an io.Writer (the standard library's log bridge) emits one NoLevel event, Print one
+							// debug event: each consults the sampler exactly once
+							tag := fmt.Sprintf("e%d", i)
+							lvl := zerolog.NoLevel
+							if o.kind == "write" {
+								hist = append(hist, fmt.Sprintf("Write(%s)", tag))
+								wlg := lg.With().Str("t", tag).Logger()
+								wlg.Write([]byte("w"))
+							} else {
+								lvl = zerolog.DebugLevel
+								hist = append(hist, fmt.Sprintf("Print(%s)", tag))
+								plg := lg.With().Str("t", tag).Logger()
+								plg.Print("p")
+							}
+							if lvl >= loggerLevel && lvl >= glob {
+								if disabled || m.sample(lvl, clock) {
+									want = append(want, tag)
+								}
+							}
+						case "dis-on", "dis-off": // a setter, not a toggle: the same value may be set twice in a row
+							disabled = o.kind == "dis-on"
+							zerolog.DisableSampling(disabled)
+							hist = append(hist, fmt.Sprintf("DisableSampling(%v)", disabled))
+						case "glob":
+							glob = o.lvl
+							zerolog.SetGlobalLevel(glob)
+							hist = append(hist, fmt.Sprintf("SetGlobalLevel(%v)", glob))
+						case "tick":
+							clock += P
+							hist = append(hist, "clock+=P")
+						}
+					}
+					var got []string
+					for _, l := range w.lines {
+						i := strings.Index(l, `"t":"`)
+						j := strings.Index(l[i+5:], `"`)
+						got = append(got, l[i+5:i+5+j])
+					}
+					outcome := fmt.Sprint(derivation, c.name, loggerLevel, got)
+					r.Eval(outcome, len(got) > 0 && len(got) < L)
+					if fmt.Sprint(got) != fmt.Sprint(want) {
+						r.Violation("", "logger/"+c.name, fmt.Sprintf("logger(level=%v).Sample(%s) [%s], history %v: writer received %v, model expects %v", loggerLevel, c.name, derivation, hist, got, want), map[string]interface{}{"history": hist})
+					}
+					if r.Evals%50000 == 0 && len(r.Samples) < 7 {
+						r.Sample(fmt.Sprintf("logger %s level=%v history=%v -> %v", c.name, loggerLevel, hist, got))
+					}
+					k := L - 1
+					for k >= 0 {
+						idx[k]++
+						if idx[k] < len(ops) {
+							break
+						}
+						idx[k] = 0
+						k--
+					}
+					if k < 0 {
 						break
 					}
-					idx[k] = 0
-					k--
-				}
-				if k < 0 {
-					break
 				}
 			}
 		}
